@@ -36,10 +36,9 @@ ASSUMPTIONS = [
 ]
 TRUSTED_EXTRA = ["networkx (third party): only observed through to_networkx / from_networkx on the real objects"]
 NOTES = [
-    "CompleteBipartiteGraph.add_edge is `pass`: an invalid insertion is ignored without ValueError (no side effect, "
-    "all views keep describing K_{L,R}) — known finding D30, exercised by the class 'complete-bipartite:invalid-insert' "
-    "(same histories run a second time with a reference that insists on the refusal); its neighbour views accept "
-    "out-of-range vertices. Modelled as is (CBipG).",
+    "CompleteBipartiteGraph.add_edge refuses pairs outside 1..L x 1..R with ValueError and is otherwise a no-op "
+    "(finding D33, fixed in /repo); its neighbour views accept out-of-range vertices (not covered by the property's "
+    "text). Modelled as is (CBipG).",
     "DirectedGraph / BipartiteGraph have no remove_edge / update_vertex_number: the call is an AttributeError "
     "(Outcome.noSuchMethod in the model) and the object is unchanged.",
 ]
@@ -183,8 +182,7 @@ def run_history(kind, size, ops):
 class Ref:
     """what the property says the object is: a vertex count and a set of edges"""
 
-    def __init__(self, kind, size, strict=False):
-        self.strict = strict        # CompleteBipartiteGraph only: insist that an illegal insertion is refused
+    def __init__(self, kind, size):
         self.kind = kind
         self.size = list(size)
         self.E = set()
@@ -210,9 +208,8 @@ class Ref:
     def add(self, u, v):
         """expected outcome of one insertion"""
         if self.kind == CBIP:
-            # the edge set is fixed; the class as written never refuses (finding D30): the default reference
-            # follows it so that every other view keeps being checked, the strict one states the property
-            return "ValueError" if (self.strict and not self.valid(u, v)) else "ok"
+            # the edge set is fixed: a legal pair is present already, an illegal one is refused
+            return "ok" if self.valid(u, v) else "ValueError"
         if not self.valid(u, v):
             return "ValueError"
         self.E.add(self.key(u, v))
@@ -374,9 +371,9 @@ def _ref_like(R):
     return R2
 
 
-def property_fails(kind, size, ops, nx_every=False, strict=False):
+def property_fails(kind, size, ops, nx_every=False):
     """None if the property holds on this history, else a description of the first failure"""
-    R = Ref(kind, size, strict)
+    R = Ref(kind, size)
     ctor_ok = all(s >= 0 for s in size)
     try:
         G = make(kind, size)
@@ -413,7 +410,7 @@ def property_fails(kind, size, ops, nx_every=False, strict=False):
 SHRINKS = [0]
 
 
-def shrink(kind, size, ops, strict=False):
+def shrink(kind, size, ops):
     """greedy deletion of operations (and of edges inside add_edges_from) while the property still fails"""
     SHRINKS[0] += 1
     if SHRINKS[0] > 8:                      # a broken implementation fails everywhere: shrink the first few only
@@ -421,7 +418,7 @@ def shrink(kind, size, ops, strict=False):
 
     def fails(o):
         try:
-            return property_fails(kind, size, o, nx_every=True, strict=strict) is not None
+            return property_fails(kind, size, o, nx_every=True) is not None
         except Exception:  # noqa
             return True
     ops = [list(o) for o in ops]
@@ -452,15 +449,13 @@ def shrink(kind, size, ops, strict=False):
     return ops
 
 
-def hist_oracle(kind, size, ops, strict=False):
+def hist_oracle(kind, size, ops):
     def oracle():
-        f = property_fails(kind, size, ops, strict=strict)
+        f = property_fails(kind, size, ops)
         if f is None:
             return None
-        if strict:                          # the recorded finding D30: nothing to shrink
-            return {"graph": KNAME[kind], "initial_size": list(size), "first_failure": f}
-        small = shrink(kind, size, ops, strict)
-        f2 = property_fails(kind, size, small, nx_every=True, strict=strict) or f
+        small = shrink(kind, size, ops)
+        f2 = property_fails(kind, size, small, nx_every=True) or f
         return {"graph": KNAME[kind], "initial_size": list(size), "minimal_failing_history": small,
                 "first_failure": f2, "on_the_generated_history": f}
     return oracle
@@ -506,9 +501,8 @@ def build(suite, info):
 
         def impl():
             return run_history(kind, size, ops)
-        strict = bool(info.get("strict_refusal"))
-        cls = KNAME[kind] + (":bad-size" if any(s < 0 for s in size) else ":invalid-insert" if strict else "")
-        return Case(suite, r, impl, hist_oracle(kind, size, ops, strict), cls=cls, nontrivial=len(ops) > 0, info=info)
+        cls = KNAME[kind] + (":bad-size" if any(s < 0 for s in size) else "")
+        return Case(suite, r, impl, hist_oracle(kind, size, ops), cls=cls, nontrivial=len(ops) > 0, info=info)
     if suite == "nx":
         edges = [tuple(e) for e in info["edges"]]
         labels, order, flips = info["labels"], info["order"], info["flips"]
@@ -707,23 +701,12 @@ def gen_nx(rng, kind):
     return dict(kind=kind, size=size, edges=[list(e) for e in edges], labels=labels, order=order, flips=flips)
 
 
-def has_invalid_insert(kind, size, ops):
-    R = Ref(kind, size)
-    for op in ops:
-        es = [(op[1], op[2])] if op[0] == "add" else op[1] if op[0] == "addm" else []
-        if any(not R.valid(u, v) for u, v in es):
-            return True
-    return False
-
-
 def cases(ctx):
     tier, seed = ctx["tier"], ctx["seed"]
     rng = common.sub_rng(seed, "C16")
     SHRINKS[0] = 0
     for kind, size, ops in CORPUS:
         yield build("hist", dict(kind=kind, size=size, ops=ops))
-        if kind == CBIP and min(size) >= 0 and has_invalid_insert(kind, size, ops):
-            yield build("hist", dict(kind=kind, size=size, ops=ops, strict_refusal=True))
     reps = 1500 if tier == "quick" else 20000
     for i in range(reps):
         kind = rng.choice([SIMPLE, SIMPLE, SIMPLE, DIRECTED, DIRECTED, BIP, BIP, CBIP] if i % 12 else [CBIP])
@@ -736,8 +719,6 @@ def cases(ctx):
             length = min(length, 6)
         ops = gen_history(rng, kind, size, length)
         yield build("hist", dict(kind=kind, size=size, ops=ops))
-        if kind == CBIP and has_invalid_insert(kind, size, ops):
-            yield build("hist", dict(kind=kind, size=size, ops=ops, strict_refusal=True))
     for i in range(reps // 3):
         yield build("nx", gen_nx(rng, rng.choice([SIMPLE, DIRECTED, BIP])))
 
